@@ -194,6 +194,9 @@ func c04body1(cfg c04cfg) func() {
 		o.vs = vs
 		dial := func(string) (net.Conn, error) {
 			if cfg.vconn {
+				if cfg.pipeline && len(vs.conns) > 0 {
+					mcrt.Covered("pipeline-redialled")
+				}
 				return vs.dial(), nil
 			}
 			pc := fasthttputil.NewPipeConns()
@@ -336,12 +339,11 @@ func c04check(cfg c04cfg) func(x *mcrt.Exec) (string, string, string) {
 			}
 		}
 		class := strings.Join(cls, ",")
-		if x.Out.Deadlock || x.Out.Horizon {
-			return class, "", ""
-		}
 		if cfg.vconn {
 			o.srvSeen = o.vs.seen
 		}
+		// Executions that end stuck (deadlock / horizon) are judged too: what a call has returned is final. Only when
+		// every returned call is its own does the generic deadlock / horizon verdict of mcx apply.
 		for _, r := range o.res {
 			if !r.returned || r.err != nil {
 				continue
@@ -383,8 +385,10 @@ func TestVerif_C04(t *testing.T) {
 		"streamed bodies are read fully / partly then CloseBodyStream / closed unread; " +
 		"slow-peer fault dimension (*/write-stalls/*): any connection Write may block for 2 s of virtual time (environment choice, one deviation per stalled Write; honours the write deadline: then half of the bytes were taken and a timeout is returned), " +
 		"with WriteBufferSize 32 (< request head, so Request.Write itself hits the connection) or a 5000-byte POST body (> default buffer), so a call's deadline can expire after its request bytes started to reach the wire and before the write returns, followed by 1-2 more calls on the same client; " +
-		"all schedules, select choices and timer-first orders up to the deviation bound are executed; " +
-		"oracle per execution: every call returning nil has X-Id == its request id, status 200 and body == the server's body for that id (streamed: a prefix, the whole body on EOF); non-trivial: executions with >=1 deviation")
+		"connection-death history dimension (pipeline/redial/*): the pipelined connection dies {response cut mid-body, server closes after a complete response, no answer until the client's ReadTimeout} while a second thread submits {at the virtual instant of the failure, 1 ms before it} " +
+		"and the first thread makes a follow-up call {immediately, 1 ms later = on the re-dialled connection}, all calls {DoTimeout, Do}: 24 systems, all orders of reader / worker / writer failure handling against the submissions; " +
+		"all schedules, select choices and timer-first orders up to the deviation bound are executed (pipeline/redial/*: bound 0 = every order of the threads woken at the same virtual instant, quick; bound 1 thorough); " +
+		"oracle per execution (also for executions that end stuck: deadlock / step horizon): every call returning nil has X-Id == its request id, status 200 and body == the server's body for that id (streamed: a prefix, the whole body on EOF); non-trivial: executions with >=1 deviation")
 	r.Assume("mcrt shim semantics (litmus-tested)", "sync.Pool modelled as deterministic LIFO", "HostClient idle-connection cleaner not started (connsCleanerRun preset; C18 covers it)",
 		"response bodies may contain arbitrary bytes, including text shaped like an HTTP message", "scenarios named */v use a harness net.Conn whose peer is a serial server model on the virtual clock",
 		"a stalled Write takes either all bytes after the stall or, when the write deadline comes first, exactly half of them (no other partial-write sizes are enumerated)")
@@ -505,6 +509,7 @@ func c04scenarios(add func(name string, qb, tb int, tf bool, cfg c04cfg)) {
 	add("pipeline/3callers/do/v", 1, 2, false, c04cfg{vconn: true, pipeline: true, maxConns: 1, maxPending: 2,
 		callers: [][]c04call{{{id: "A"}}, {{id: "B", after: ms}}, {{id: "C", after: 2 * ms}}},
 		beh:     map[string]c04beh{"A": {split: true, delay: sec, nested: true}, "B": {chunked: true}, "C": {}}})
+	c04redialScenarios(add)
 	// --- slow peer: virtual time passes INSIDE a request write (any connection Write may block for 2 s = one deviation),
 	// so a call's deadline can expire after its request bytes started to reach the wire and before the write returns.
 	// Either the write buffer is smaller than a request head, or the request body is larger than the default buffer.
@@ -523,4 +528,54 @@ func c04scenarios(add func(name string, qb, tb int, tf bool, cfg c04cfg)) {
 	add("host/plain/2callers/write-stalls/bigbody/v", 1, 2, true, c04cfg{vconn: true, maxConns: 1, wstall: 2 * sec, waitTimeout: 10 * sec,
 		callers: [][]c04call{{{id: "A", timeout: sec, post: 5000}}, {{id: "B", timeout: 5 * sec}}},
 		beh:     map[string]c04beh{"A": {}, "B": {chunked: true}}})
+}
+
+// --- PipelineClient: the connection dies while other callers keep submitting, and a further call is made on the
+// re-dialled connection (history dimension: cause of death x concurrent submission x follow-up call x Do/DoTimeout).
+// Cause of death: the server cuts A's response mid-body / closes after A's complete response / never answers A and the
+// client's ReadTimeout expires (the worker then pauses 1 s before re-dialling). B is submitted by a second thread at
+// the virtual instant of the failure (all orders of the failure handling in reader, worker and writer against B's
+// submission are schedules of that instant: every thread involved is blocked just before it, so they are free choices
+// explored at every bound) or 1 ms before it (B's request is on the wire of the dying connection and its work in the
+// response queue). C follows on A's thread, immediately (it may still be taken by the dying connection's writer) or
+// 1 ms later (after the re-dial). All calls are DoTimeout(5 s) (work copies, timers) or all are Do (the caller's own
+// request/response objects; a call that is never answered blocks for good and is reported as a deadlock). Every call
+// that returns nil must carry its own response although works of the dead connection and of the new one meet in the
+// client's queues.
+func c04redialScenarios(add func(name string, qb, tb int, tf bool, cfg c04cfg)) {
+	sec, ms := time.Second, time.Millisecond
+	type cause struct {
+		name string
+		a    c04beh
+		rt   time.Duration // ReadTimeout
+		at   time.Duration // virtual instant of the failure
+	}
+	causes := []cause{
+		{"cut", c04beh{cut: true, nested: true, stall: 2 * ms}, 0, 2 * ms},
+		{"close", c04beh{close: true, stall: 2 * ms}, 0, 2 * ms},
+		{"readtimeout", c04beh{never: true}, sec, sec},
+	}
+	for _, cz := range causes {
+		for _, early := range []bool{false, true} {
+			for _, late := range []bool{false, true} {
+				for _, do := range []bool{false, true} {
+					bAt, nm := cz.at, "submit-at-failure"
+					if early {
+						bAt, nm = cz.at-ms, "submit-before-failure"
+					}
+					cAfter := time.Duration(0)
+					if late {
+						cAfter, nm = ms, nm+"/followup-1ms-later"
+					}
+					to := 5 * sec
+					if do {
+						to, nm = 0, nm+"/do"
+					}
+					add("pipeline/redial/"+cz.name+"/"+nm+"/v", 0, 1, false, c04cfg{vconn: true, pipeline: true, maxConns: 1, maxPending: 2, readTimeout: cz.rt,
+						callers: [][]c04call{{{id: "A", timeout: to}, {id: "C", timeout: to, after: cAfter}}, {{id: "B", timeout: to, after: bAt}}},
+						beh:     map[string]c04beh{"A": cz.a, "B": {chunked: true}, "C": {}}})
+				}
+			}
+		}
+	}
 }
